@@ -25,7 +25,9 @@ const (
 	// maxPortLen is the maximum length of a port's decimal representation.
 	maxPortLen = len("65535")
 	// maxHostPortLen is the maximum length of an origin's host-port part.
-	maxHostPortLen = maxHostLen + 1 + maxPortLen // 1 for colon character
+	// The additional byte accounts for the full stop that terminates
+	// an absolute domain name and doesn't count towards maxHostLen.
+	maxHostPortLen = maxHostLen + 1 + 1 + maxPortLen // 1 for full stop, 1 for colon character
 )
 
 // Origin represents a (tuple) [Web origin].
